@@ -88,8 +88,13 @@ func AsString(v Value) (String, bool) {
 
 // Hash computes a hash for a String.
 func (s String) Hash(seed uintptr) uintptr {
-	// TODO: implement a []rune-friendly hash function.
-	return hash.String(string(s.s), seed)
+	// The offset is part of the value, and a hole (-1) must not hash like
+	// U+FFFD, which string(s.s) would turn it into.
+	h := hash.Int(s.offset, seed)
+	for _, r := range s.s {
+		h = hash.Int32(r, h)
+	}
+	return h
 }
 
 // Equal tests two Sets for equality. Any other type returns false.
